@@ -182,7 +182,15 @@ fn observe(src: &str, run: bool) -> Observed {
 }
 
 /// Sentinels: one certainly unused variable, one certainly unreachable statement.
-const SENTINEL: &str = "make zz_unused get 7\ndo zz_s() start\nreturn 1\nshout(\"never\")\nend\nshout(zz_s())\n";
+const SENTINEL: &str = "make zz_unused get 7\ndo zz_s() start\nreturn 1\nshout(\"never\")\nend\nshout(zz_s())\n\
+make zz_x get \"outer\"\ndo zz_show() start\nreturn zz_x\nend\ndo zz_h() start\nreturn \"outer-h\"\nend\ndo zz_use() start\nreturn zz_h() add zz_h()\nend\n\
+do zz_caller(zz_p) start\nmake zz_x get \"inner\"\ndo zz_h() start\nreturn \"inner-h\"\nend\nreturn zz_show() add zz_p add zz_use() add zz_h()\nend\nshout(zz_caller(\"-\"))\n";
+/// what the sentinel prints: names resolve lexically whether or not the analyses ran
+const SENTINEL_OUT: [&str; 2] = ["1", "outer-outer-houter-hinner-h"];
+
+fn sentinel_plus(rest: Vec<String>) -> Vec<String> {
+    SENTINEL_OUT.iter().map(|x| x.to_string()).chain(rest).collect()
+}
 
 struct Family {
     name: &'static str,
@@ -198,7 +206,7 @@ fn fam_statements(n: u64) -> (String, Vec<String>) {
         s.push_str("t get t add 1\n");
     }
     s.push_str("shout(t)\n");
-    (s, vec!["1".into(), n.to_string()])
+    (s, sentinel_plus(vec![n.to_string()]))
 }
 
 fn fam_functions(n: u64) -> (String, Vec<String>) {
@@ -208,7 +216,7 @@ fn fam_functions(n: u64) -> (String, Vec<String>) {
         s.push_str(&format!("do f{k}() start\nend\n"));
     }
     s.push_str("shout(\"done\")\n");
-    (s, vec!["1".into(), "done".into()])
+    (s, sentinel_plus(vec!["done".to_string()]))
 }
 
 fn fam_locals(n: u64) -> (String, Vec<String>) {
@@ -224,7 +232,7 @@ fn fam_locals(n: u64) -> (String, Vec<String>) {
         s.push_str(&format!("p{k}"));
     }
     s.push_str(") start\nend\nshout(\"done\")\n");
-    (s, vec!["1".into(), "done".into()])
+    (s, sentinel_plus(vec!["done".to_string()]))
 }
 
 fn fam_scopes(n: u64) -> (String, Vec<String>) {
@@ -234,12 +242,12 @@ fn fam_scopes(n: u64) -> (String, Vec<String>) {
         s.push_str("start\nend\n");
     }
     s.push_str("shout(\"done\")\n");
-    (s, vec!["1".into(), "done".into()])
+    (s, sentinel_plus(vec!["done".to_string()]))
 }
 
 fn fam_calls(n: u64) -> (String, Vec<String>) {
     let mut s = String::with_capacity(n as usize * 10 + 200);
-    let mut out = vec!["1".to_string()];
+    let mut out: Vec<String> = SENTINEL_OUT.iter().map(|x| x.to_string()).collect();
     s.push_str(SENTINEL);
     s.push_str("do c() start\nreturn 1\nend\n");
     let mut left = n;
@@ -263,7 +271,7 @@ fn fam_blocks_fn(n: u64) -> (String, Vec<String>) {
         s.push_str("jasi (false) start\nend\n");
     }
     s.push_str("shout(\"done\")\n");
-    (s, vec!["1".into(), "done".into()])
+    (s, sentinel_plus(vec!["done".to_string()]))
 }
 
 fn fam_total_blocks(n: u64) -> (String, Vec<String>) {
@@ -283,12 +291,12 @@ fn fam_total_blocks(n: u64) -> (String, Vec<String>) {
         f += 1;
     }
     s.push_str("shout(\"done\")\n");
-    (s, vec!["1".into(), "done".into()])
+    (s, sentinel_plus(vec!["done".to_string()]))
 }
 
 fn fam_liveness(n: u64) -> (String, Vec<String>) {
     let mut s = String::with_capacity(n as usize * 30 + 200);
-    let mut out = vec!["1".to_string()];
+    let mut out: Vec<String> = SENTINEL_OUT.iter().map(|x| x.to_string()).collect();
     s.push_str(SENTINEL);
     for k in 0..n {
         s.push_str(&format!("make v{k} get {k}\n"));
